@@ -746,7 +746,10 @@ func oracleC33(v *View, vd *Verdict) {
 							if ref < activeSince {
 								ref = activeSince
 							}
-							if ref >= 0 && x.e.T-ref > ka+cp.RetryDelayMs*nsMs+20*nsMs {
+							// with planned losses the client may legitimately have given up (retry budget
+							// exhausted => its goroutine group is cancelled): then no ping is owed any more
+							gaveUp := lossy && deadIdx != int(^uint(0)>>1)
+							if ref >= 0 && x.e.T-ref > ka+cp.RetryDelayMs*nsMs+20*nsMs && !gaveUp {
 								vd.Add("C33", "C33/keepalive-gap", "client %s: %d ms without a keep-alive PINGREQ while active (KeepAlive %d ms)", cp.Name, (x.e.T-ref)/nsMs, cp.KeepAliveMs)
 							}
 							lastPing = x.e.T
